@@ -667,6 +667,8 @@ def comprehension(ex, st: State, node):
             if r is None:
                 r = alloc_map_comprehension(ex, s, it, node, gen)
             if r is None:
+                r = pure_map_comprehension(ex, s, it, node, gen)
+            if r is None:
                 raise Unsupported('comprehension over symbolic-length iterable')
             outs.append((s, r))
             continue
@@ -754,6 +756,45 @@ def map_comprehension(ex, st: State, it: V, node, gen):
     j = z3.Int('j!map')
     st.assume(z3.Length(rs) == z3.Length(seq))
     st.assume(z3.ForAll([j], z3.Implies(z3.And(j >= 0, j < z3.Length(seq)), rs[j] == mf[fname](seq[j]))))
+    st.set_list_seq(r, rs)
+    return r
+
+
+def pure_map_comprehension(ex, st: State, it: V, node, gen):
+    """[e(x) for x in seq] for an element expression that evaluates, on an arbitrary item, to ONE value term without
+    raising and without touching the heap (calls of pure summaries, attribute reads of locals, arithmetic): the result is
+    a new list r with len(r) == len(seq) and r[j] == e(seq[j]) for every j. Anything else: not handled here."""
+    if gen.ifs or not isinstance(node, ast.ListComp) or not isinstance(gen.target, ast.Name):
+        return None
+    seq, n, elem = iter_seq(ex, st, it)
+    if seq is None:
+        return None
+    probe = st.fork()
+    saved_arr = dict(probe.arr)
+    x = z3.Const(fresh_name('mapitem'), Val)
+    n_pc = len(probe.pc)
+    try:
+        outs = []
+        for s2, sig in ex.assign(gen.target, vany(x), probe):
+            if sig is not None:
+                return None
+            outs.extend(ex.ev(node.elt, s2))
+    except Unsupported:
+        return None
+    if len(outs) != 1 or isinstance(outs[0][1], Raise):
+        return None
+    s2, v = outs[0]
+    if any(s2.arr.get(k) is not saved_arr.get(k) for k in set(s2.arr) | set(saved_arr)):
+        return None     # the element expression writes the heap or allocates
+    extra = s2.pc[n_pc:]
+    if extra:
+        return None     # the evaluation needed assumptions about the item
+    t = st.box(v)
+    r = st.alloc('list')
+    rs = fresh(SeqVal, 'mapped')
+    j = z3.Int('j!pmap')
+    st.assume(z3.Length(rs) == z3.Length(seq))
+    st.assume(z3.ForAll([j], z3.Implies(z3.And(j >= 0, j < z3.Length(seq)), rs[j] == z3.substitute(t, (x, seq[j])))))
     st.set_list_seq(r, rs)
     return r
 
